@@ -54,7 +54,10 @@ Record txn := {
   x_fs_exit : Z; x_noresp_exit : list Z; x_tid_exit : Z; x_ntx_exit : Z; x_conn_exit : bool;
   (* spec side: the scripted peer *)
   x_want_tid : Z; x_behs : list beh; x_exp_full : Z; x_exp_exc : Z; x_delivered : list msg; x_refused : bool;
-  x_is_error : option bool      (* result.isError() as observed (None: the result has no isError) *)
+  x_is_error : option bool;     (* result.isError() as observed (None: the result has no isError) *)
+  x_timeout : Z;                (* the client's configured timeout, in 1/64 s *)
+  x_elapsed : Z;                (* virtual time the call took, in 1/64 s (rounded up) *)
+  x_max_wait : Z                (* the largest timeout handed to select / a blocking read during the call, 1/64 s *)
 }.
 
 Record tcase := { k_cfg : cfg; k_table : ftable; k_tid0 : Z; k_fs0 : Z; k_txs : list txn }.
@@ -161,6 +164,13 @@ Definition spec_is_error (r : result) : option bool :=
   end.
 Definition is_error_ok (x : txn) : bool := option_eqb Bool.eqb (x_is_error x) (spec_is_error (x_result x)).
 
+(* bounded time: no single wait is longer than the configured timeout, and the whole call takes no longer than
+   (transmissions + 2) attempts of at most four timeouts each (connect/idle wait, two reads, polling) plus the backoff
+   sleeps (units of backoff/2 = 0.15 s, i.e. < 10/64 s each) plus two seconds of slack for clock ticks *)
+Definition time_ok (x : txn) : bool :=
+  (x_max_wait x <=? x_timeout x)
+  && (x_elapsed x <=? (n_sends (x_calls x) + 2) * 4 * x_timeout x + 10 * fold_right Z.add 0 (x_sleeps x) + 128).
+
 Definition is_bcast (c : cfg) (x : txn) : bool := c_bcast c && (r_unit (x_req x) =? 0).
 
 (* C08 on one transaction *)
@@ -176,7 +186,7 @@ Definition c08_txn (c : cfg) (x : txn) : bool :=
 
 (* C13 on one transaction *)
 Definition c13_txn (c : cfg) (x : txn) : bool :=
-  is_error_ok x && (n_sends (x_calls x) <=? 1 + retries_spec c)
+  is_error_ok x && time_ok x && (n_sends (x_calls x) <=? 1 + retries_spec c)
   && match x_result x with
      | RReply _ | RErr _ => true
      | RBroadcast => is_bcast c x
